@@ -18,15 +18,16 @@ FUNCTIONS = [
 BOUNDS = {
     "matching": "reference of 4 bins with concrete coordinates; one bin at a time has fully symbolic log2/spread/depth/gc (the others concrete, passing); sample = all / subset / permuted rows / one absent / duplicated coordinates",
     "arithmetic": "3 target + 0-2 antitarget bins on two autosomes, every reference bin passing the filters (pooled: log2 in [0.05, 0.95], spread in [0.001, 1]; or flat), sample log2 in [-3, 3] (no null coverage: one path through the masks), corrections off",
+    "row permutation": "do_fix on 4 target + 0-2 antitarget bins with symbolic sample log2 in [-3, 3], concrete passing reference (gc/rmask distinct or tied), every subset of corrections in the thorough tier, rows of target/antitarget/reference reversed, rotated or with the first two swapped, against the same call on sorted rows",
     "corrections": "center_by_window on 4 bins with a symbolic covariate (distinct values), window fraction 0.5 / 0.99; edge formulas with symbolic bin sizes and gaps",
 }
 NOT_COVERED = [
     "the numeric value of biweight_midvariance inside the weights: it is replaced by a solver-chosen member of {0, 0.3, 1.5} (its own numerics: C19)",
-    "whole-pipeline runs with corrections on (decomposed: the corrections are checked on their own)",
+    "the values produced by whole-pipeline runs with corrections on (decomposed: the corrections are checked on their own; the pipeline with corrections on is only compared with itself under row permutations)",
     "clustered references (do_cluster)",
 ]
 STUBS = ["descriptives.biweight_midvariance -> solver-chosen value from {0, 0.3, 1.5}"]
-ASSUMPTIONS = ["tables arrive sorted by the real GenomicArray.sort, as tabio.read delivers them"]
+ASSUMPTIONS = ["arithmetic harness: tables arrive sorted by the real GenomicArray.sort, as tabio.read delivers them (unsorted rows: row_permutation and match_filter harnesses)"]
 
 REF_BINS = [("chr1", 100, 300, "A"), ("chr1", 300, 700, "A"), ("chr2", 50, 250, "B"), ("chr2", 1000, 9000, "Antitarget")]
 
@@ -108,7 +109,8 @@ def h_match(ctx, layout, with_gc, sym_bin=0):
         ri = [k for k, b in enumerate(REF_BINS) if (b[0], b[1], b[2]) == (c, s, e)][0]
         if bool(ref_ok(rcols, ri)):
             want.append((c, s, e))
-    ctx.claim(got == want, "exactly the sample bins whose coordinate-matched reference bin passes the filters are kept, in order")
+    want.sort()  # chr1 < chr2: plain tuple order is genomic order here
+    ctx.claim(got == want, "exactly the sample bins whose coordinate-matched reference bin passes the filters are kept, in genomic order")
     gotr = [(r.chromosome, r.start, r.end) for r in refm.data.itertuples(index=False)]
     ctx.claim(gotr == want, "the matched reference rows are the same bins, matched by coordinate and never by row position")
     ctx.cover("dropped a bad bin", len(want) < len(srows))
@@ -119,15 +121,16 @@ TGT = [("chr1", 100, 300, "A"), ("chr1", 300, 700, "A"), ("chr2", 50, 250, "B")]
 ANTI = [("chr1", 1000, 9000, "Antitarget"), ("chr2", 1000, 5000, "Antitarget")]
 
 
-def run_fix(ctx, tcols, acols, rcols, var_choice):
+def run_fix(ctx, tcols, acols, rcols, var_choice, flags=(False, False, False), sort_ref=True):
     tgt = make_cna(tcols, {"sample_id": "S"})
     anti = make_cna(acols, {"sample_id": "S"})
     ref = make_cna(rcols, {"sample_id": "ref"})
-    ref.sort()
+    if sort_ref:
+        ref.sort()
     real = descriptives.biweight_midvariance
     descriptives.biweight_midvariance = lambda a, **k: var_choice
     try:
-        return fix.do_fix(tgt, anti, ref, None, False, False, False)
+        return fix.do_fix(tgt, anti, ref, None, *flags)
     finally:
         descriptives.biweight_midvariance = real
 
@@ -199,6 +202,59 @@ def h_arith(ctx, n_anti, shift=False, flat=False, case=None, bad_bin=False):
             r2 = rows2.get((b[0], b[1], b[2]))
             ctx.claim(r2 is not None and And(approx(r2.log2, res[i].log2), approx(r2.weight, res[i].weight)), "the output is unchanged by rescaling the sample's depth (adding a constant to its log2)")
         ctx.cover("rescaled")
+    ctx.cover("reached")
+
+
+PERMS = {"rev": lambda xs: xs[::-1], "rot": lambda xs: xs[1:] + xs[:1], "swap01": lambda xs: [xs[1], xs[0]] + xs[2:]}
+
+
+def h_perm(ctx, n_anti, flags, perm, ties=False, case=None):
+    """do_fix on the same bins with the rows of every input permuted: same output (statement:
+    'unchanged by ... permuting the rows of any input', 'in genomic order', 'matched by (chromosome,
+    start, end), never by row position').  Corrections on or off; the sample's log2 is symbolic."""
+    tb = TGT + [("chr2", 300, 420, "B")]
+    bins = tb + ANTI[:n_anti]
+    n, nt = len(bins), len(tb)
+    rc = {"chromosome": [b[0] for b in bins], "start": [b[1] for b in bins], "end": [b[2] for b in bins], "gene": [b[3] for b in bins]}
+    rc["log2"] = [0.25, 0.5, 0.75, 0.125, 0.375, 0.625][:n]
+    rc["spread"] = [0.25, 0.5, 0.125, 0.75, 0.375, 0.25][:n]
+    rc["depth"] = [10.0] * n
+    rc["gc"] = ([0.5, 0.4, 0.5, 0.4, 0.5, 0.5] if ties else [0.5, 0.4, 0.6, 0.35, 0.45, 0.55])[:n]
+    rc["rmask"] = ([0.25, 0.25, 0.5, 0.5, 0.125, 0.125] if ties else [0.25, 0.5, 0.125, 0.375, 0.75, 0.0625])[:n]
+    sl = [ctx.real(f"sl{i}", -3, 3) for i in range(n)]
+    apply_case(ctx, case)
+
+    def cols_of(idx):
+        return {"chromosome": [bins[i][0] for i in idx], "start": [bins[i][1] for i in idx], "end": [bins[i][2] for i in idx], "gene": [bins[i][3] for i in idx], "log2": [sl[i] for i in idx], "depth": [10.0] * len(idx)}
+
+    def rcols_of(idx):
+        return {k: [v[i] for i in idx] for k, v in rc.items()}
+
+    f = PERMS[perm]
+    ti, ai, ri = list(range(nt)), list(range(nt, n)), list(range(n))
+    outs = []
+    for (t_idx, a_idx, r_idx) in ((ti, ai, ri), (f(ti), f(ai) if len(ai) > 1 else ai, f(ri))):
+        try:
+            outs.append(run_fix(ctx, cols_of(t_idx), cols_of(a_idx), rcols_of(r_idx), 0.3, flags, sort_ref=False))
+        except Exception as exc:
+            ctx.claim(False, f"do_fix raised {type(exc).__name__}", info=str(exc)[:200])
+            return
+    a, b = outs
+    ka = [(r.chromosome, r.start, r.end) for r in a.data.itertuples(index=False)]
+    kb = [(r.chromosome, r.start, r.end) for r in b.data.itertuples(index=False)]
+    ctx.observe("rows_sorted_input", [list(k) for k in ka])
+    ctx.observe("rows_permuted_input", [list(k) for k in kb])
+    ctx.claim(kb == sorted(kb), "output is in genomic order whatever the order of the input rows")
+    ctx.claim(sorted(ka) == sorted(kb) == sorted((x[0], x[1], x[2]) for x in bins), "the same bins are emitted whatever the order of the input rows")
+    if sorted(ka) != sorted(kb):
+        return
+    rb = {(r.chromosome, r.start, r.end): r for r in b.data.itertuples(index=False)}
+    ctx.observe("log2_sorted_input", [r.log2 for r in a.data.itertuples(index=False)])
+    ctx.observe("log2_permuted_input", [rb[k].log2 for k in ka])
+    for r in a.data.itertuples(index=False):
+        q = rb[(r.chromosome, r.start, r.end)]
+        ctx.claim(approx(r.log2, q.log2), "each bin's log2 is unchanged by permuting the rows of the inputs (reference matched by coordinate, never by row position)")
+        ctx.claim(approx(r.weight, q.weight), "each bin's weight is unchanged by permuting the rows of the inputs")
     ctx.cover("reached")
 
 
@@ -281,6 +337,19 @@ HARNESSES = [
         covers=["reached", "rescaled"],
         wall_s=400,
         thorough_wall_s=1800,
+    ),
+    Harness(
+        "row_permutation",
+        h_perm,
+        [{"n_anti": na, "flags": fl, "perm": pm} for na, fl, pm in (
+            (0, (False, False, False), "rev"), (0, (True, False, False), "rot"), (0, (False, True, False), "swap01"),
+            (2, (False, False, True), "rev"), (1, (True, False, False), "rev"))]
+        + [{"n_anti": 0, "flags": (True, False, False), "perm": "rev", "ties": True}]
+        + [{"n_anti": 2, "flags": (True, True, True), "perm": "rot", "tier": "thorough"}]
+        + [{"n_anti": na, "flags": fl, "perm": pm, "ties": tt, "tier": "thorough"} for na in (0, 2) for fl in ((True, True, True), (False, True, False), (True, False, True)) for pm in ("rev", "rot", "swap01") for tt in (False, True)],
+        covers=["reached"],
+        wall_s=400,
+        thorough_wall_s=1500,
     ),
     Harness(
         "center_by_window",
